@@ -4,8 +4,11 @@
              nops op*                       0 = poll_ready; 1 b len = start_send; 2 = poll_flush; 3 b len = send_framed;
                                             4 = Sink::poll_close (one poll); 5 = Substream::close(self) (only as the last op)
              nw wev*                        write script: 0 = Pending; 1 n = accept up to n bytes / flush, shutdown ok; 3 = error
+                                            (BrokenPipe); 4 k = error of kind k (position in the ErrorKind table of
+                                            tools/gen_c04_tables.py; an IoError(PermissionDenied) is reported as code 2,
+                                            every other kind as code 4)
              nraw (byte count)*             raw bytes appended to the reader's wire after what the writer got out
-             nr rev*                        read script: 0 = Pending; 1 n = deliver up to n bytes; 2 = end of stream; 3 = error
+             nr rev*                        read script: 0 = Pending; 1 n = deliver up to n bytes; 2 = end of stream; 3 = error; 4 k = error of kind k
              npolls                         number of poll_next calls
    message (b, len) = len bytes b, the last one b+1 mod 256 when len >= 2.
    trace :=  1, then per writer op:  code [npend: ops 3, 5]  [pbytes nframes len* cur+1: all but op 5]  sent_total
@@ -15,8 +18,8 @@
              a panic is code 9 and ends the trace.  [0] = malformed case. *)
 From Coq Require Import List NArith Bool.
 From V.common Require Import Wire.
-From V.gen Require Consts.
-From V.C04 Require Import Model.
+From V.gen Require Consts C04Tables.
+From V.C04 Require Import Model Codec GlueCodec Carrier Yamux GlueYamux WebRtc GlueWebRtc.
 Import ListNotations.
 Open Scope N_scope.
 
@@ -61,12 +64,14 @@ Fixpoint close_all_last (ops : list op) : bool :=
   | _ :: t => close_all_last t
   end.
 
-Definition p_wev : parser wev :=
+(* a write-script event and the kind of error it stands for (meaningful for WErr only) *)
+Definition p_wev : parser (wev * N) :=
   let* tag := pN in
   match tag with
-  | 0 => pret WPending
-  | 1 => let* n := pN in let* _ := pguard (n <=? MAX_LEN) in pret (WChunk n)
-  | 3 => pret WErr
+  | 0 => pret (WPending, 0)
+  | 1 => let* n := pN in let* _ := pguard (n <=? MAX_LEN) in pret (WChunk n, 0)
+  | 3 => pret (WErr, C04Tables.EK_BROKEN_PIPE)
+  | 4 => let* k := pN in let* _ := pguard (k <? C04Tables.ERROR_KINDS_LEN) in pret (WErr, k)
   | _ => pfail
   end.
 
@@ -77,6 +82,7 @@ Definition p_rev : parser rdev :=
   | 1 => let* n := pN in let* _ := pguard (n <=? MAX_LEN) in pret (EvChunk n)
   | 2 => pret EvEof
   | 3 => pret EvErr
+  | 4 => let* k := pN in let* _ := pguard (k <? C04Tables.ERROR_KINDS_LEN) in pret EvErr
   | _ => pfail
   end.
 
@@ -85,7 +91,7 @@ Definition p_run : parser (list N) :=
   let* _ := pguard ((b <=? 255) && (k <=? MAX_LEN)) in pret (repeat b (N.to_nat k)).
 
 Record tcase := mkCase {
-  t_codec : codec; t_ops : list op; t_wscript : list wev; t_raw : list N;
+  t_codec : codec; t_ops : list op; t_wscript : list wev; t_wkinds : list N; t_raw : list N;
   t_rscript : list rdev; t_polls : N }.
 
 Definition decode_case (l : list N) : option tcase :=
@@ -97,7 +103,7 @@ Definition decode_case (l : list N) : option tcase :=
         let* rs := plist p_rev in
         let* np := pN in
         let* _ := pguard (np <=? 100000) in
-        pret (mkCase c ops ws (concat raw) rs np)) l.
+        pret (mkCase c ops (map fst ws) (map snd ws) (concat raw) rs np)) l.
 
 (* ---- encoders ---- *)
 Fixpoint rle (l : list N) : list (N * N) :=
@@ -120,16 +126,31 @@ Definition enc_wstate (w : wstate) : list N :=
 Definition has_npend (o : op) : bool := match o with OFramed _ | OCloseAll => true | _ => false end.
 Definition has_state (o : op) : bool := match o with OCloseAll => false | _ => true end.
 
-Fixpoint run_writer (c : codec) (s : sys) (ops : list op) : list N * sys :=
+(* the code an IoError is reported with: IoError(PermissionDenied) looks like a refusal (2), any other kind is 4.
+   The kind is that of the last script event the operation consumed, when that event is a failure. *)
+Definition io_code (script0 : list wev) (kinds : list N) (before after : nat) : N :=
+  if Nat.ltb after before then
+    let idx := (length script0 - after - 1)%nat in
+    match nth_error script0 idx, nth_error kinds idx with
+    | Some WErr, Some k => if k =? C04Tables.EK_PERMISSION_DENIED then 2 else 4
+    | _, _ => 4
+    end
+  else 4.
+
+Fixpoint run_writer (script0 : list wev) (kinds : list N) (c : codec) (s : sys) (ops : list op) : list N * sys :=
   match ops with
   | [] => ([], s)
   | o :: t =>
       let '((r, np), s1) := step BP c s o in
-      let head := wres_code r :: (if has_npend o then [np] else []) in
+      let code := match r with
+                  | WIo => io_code script0 kinds (length (wscript s)) (length (wscript s1))
+                  | _ => wres_code r
+                  end in
+      let head := code :: (if has_npend o then [np] else []) in
       let here := head ++ (if has_state o then enc_wstate (ws s1) else []) ++ [lenN (sent s1)] ++
                   enc_rle (skipn (length (sent s)) (sent s1)) ++
                   [lenN (wscript s1); b2n (shut s1); 1] in
-      let '(rest, s2) := run_writer c s1 t in
+      let '(rest, s2) := run_writer script0 kinds c s1 t in
       (here ++ rest, s2)
   end.
 
@@ -250,16 +271,60 @@ Definition e2e_ok (c : codec) (ops : list eop) (trace : list N) : bool :=
   nlist_eqb trace (run_e2e c ops).
 
 Definition is_e2e (l : list N) : bool := match l with t :: _ => 10 <=? t | [] => false end.
+Definition kind_of (l : list N) : N := match l with t :: _ => t | [] => 0 end.
+
+(* kinds 60..62: the same end-to-end scenario over the QUIC substream type (two litep2p nodes over QUIC on the
+   loopback interface; only in the harness crate built with the quic feature). case := 60+tag arg nops op* 0 0 0 0;
+   trace := 11, one code per op, number of frames, RLE of every frame, reader's final code. A QUIC substream is
+   negotiated before any payload, so the accepting side always sees it and then a clean end. *)
+Definition decode_q2e (l : list N) : option (codec * list eop) :=
+  match l with
+  | t :: rest => if (60 <=? t) && (t <=? 62) then decode_e2e ((t - 50) :: rest) else None
+  | [] => None
+  end.
+
+Definition run_q2e (c : codec) (ops : list eop) : list N :=
+  11 :: map (e2e_code c) ops ++
+  N.of_nat (length (e2e_frames c ops)) :: concat (e2e_frames c ops) ++ [1].
+
+(* kinds 30.. are the further streams (GlueCodec.v, GlueYamux.v, GlueWebRtc.v) *)
+Definition run_ext (l : list N) : option (list N) :=
+  match kind_of l with
+  | 30 => Some (match decode_kcase l with Some k => run_kcase k | None => [0] end)
+  | 31 => Some (match decode_fcase l with Some f => run_fcase f | None => [0] end)
+  | 40 => Some (match decode_ycase l with Some y => run_ycase y | None => [0] end)
+  | 41 => Some (match decode_rcase l with Some r => run_rcase r | None => [0] end)
+  | 50 => Some (match decode_wcase l with Some w => run_wcase w | None => [0] end)
+  | 51 => Some (match decode_wrcase l with Some r => run_wrcase r | None => [0] end)
+  | 60 | 61 | 62 => Some (match decode_q2e l with Some (c, ops) => run_q2e c ops | None => [0] end)
+  | _ => None
+  end.
+
+Definition ok_ext (l trace : list N) : option bool :=
+  match kind_of l with
+  | 30 => Some (match decode_kcase l with Some k => prop_ok_k k trace | None => nlist_eqb trace [0] end)
+  | 31 => Some (match decode_fcase l with Some f => prop_ok_f f trace | None => nlist_eqb trace [0] end)
+  | 40 => Some (match decode_ycase l with Some y => prop_ok_y y trace | None => nlist_eqb trace [0] end)
+  | 41 => Some (match decode_rcase l with Some r => prop_ok_r r trace | None => nlist_eqb trace [0] end)
+  | 50 => Some (match decode_wcase l with Some w => prop_ok_w w trace | None => nlist_eqb trace [0] end)
+  | 51 => Some (match decode_wrcase l with Some r => prop_ok_wr r trace | None => nlist_eqb trace [0] end)
+  | 60 | 61 | 62 => Some (match decode_q2e l with
+                          | Some (c, ops) => nlist_eqb trace (run_q2e c ops)
+                          | None => nlist_eqb trace [0]
+                          end)
+  | _ => None
+  end.
 
 Definition run_case (l : list N) : list N :=
+  match run_ext l with Some t => t | None =>
   if is_e2e l then match decode_e2e l with Some (c, ops) => run_e2e c ops | None => [0] end else
   match decode_case l with
   | Some t =>
-      let '(wt, s) := run_writer (t_codec t) (init_sys (t_wscript t)) (t_ops t) in
+      let '(wt, s) := run_writer (t_wscript t) (t_wkinds t) (t_codec t) (init_sys (t_wscript t)) (t_ops t) in
       1 :: wt ++ run_polls (N.to_nat (t_polls t)) (t_codec t) (init_r (t_codec t))
                            (sent s ++ t_raw t) (t_rscript t)
   | None => [0]
-  end.
+  end end.
 
 (* ---- decoding a trace ---- *)
 Definition p_rle : parser (list N) :=
@@ -354,8 +419,9 @@ Definition wstep_ok (c : codec) (clean : bool) (o : op) (prev x : wobs) (acc tot
         (* complete: the message fits, it follows everything handed over before it, nothing is queued *)
         if fitsb c m && queue_empty && nlist_eqb total' (acc ++ frame c m)
         then Some (acc ++ frame c m, total', false) else None
-      else if wo_code x =? 2 then
-        if negb (fitsb c m) && conserve acc then Some (acc, total', false) else None
+      else if (wo_code x =? 2) && negb (fitsb c m) then
+        if conserve acc then Some (acc, total', false) else None
+      else if (wo_code x =? 2) && clean then None      (* a fitting message refused although the carrier never failed *)
       else
         (* error / abandoned: whatever got out is a prefix of the queued bytes followed by the frame *)
         if is_prefix total' (acc ++ frame c m) then Some (acc, total', true) else None
@@ -443,6 +509,7 @@ Fixpoint handed (c : codec) (ops : list op) (obs : list wobs) : list (list N) :=
   end.
 
 Definition prop_ok (case trace : list N) : bool :=
+  match ok_ext case trace with Some b => b | None =>
   if is_e2e case then
     match decode_e2e case with
     | Some (c, ops) => e2e_ok c ops trace
@@ -462,7 +529,7 @@ Definition prop_ok (case trace : list N) : bool :=
       end
   | None, [0] => true
   | _, _ => false
-  end.
+  end end.
 
 (* No known-finding classes for C04: the defects found were repaired (fix: commits F-C04a..f). *)
 Definition known_class (case trace : list N) : N := 0.
